@@ -288,6 +288,35 @@ def run(res, tier, seed):
         if a != m and extra_first is None:
             extra_first = {"statement": t, "what": "parser model and implementation disagree", "impl": a,
                            "model": m, "no_input": True}
+    # --- the registers an instruction reads: every source operand of every form is set right before the
+    # instruction and only for it; if the analysis does not see the read, the set-up is a dead assignment
+    rcases = []
+    for d_ in ("t2", "zero", "x0"):
+        rcases += [(f"{m_} {d_}, t0, t1", 2) for m_ in asm.ARITH]
+        rcases += [(f"{m_} {d_}, t0, 5", 1) for m_ in asm.IARITH]
+        rcases += [(f"{m_} {d_}, 4(t0)", 1) for m_ in asm.LOAD if m_ != "lwu"] + [(f"{m_} {d_}, (t0)", 1) for m_ in ("lw", "lb")]
+        rcases += [(f"{m_} {d_}, {c_}, t0", 1) for m_ in asm.CSR for c_ in ("uscratch", "0x41", "utvec")]
+        rcases += [(f"{m_} {d_}, t0", 1) for m_ in asm.PSEUDO_RR]
+        rcases += [(f"jalr {d_}, t0, 0", 1), (f"jalr {d_}, 4(t0)", 1)]
+    rcases += [(f"{m_} t0, t1, lbl", 2) for m_ in asm.BRANCH + asm.PSEUDO_RRL]
+    rcases += [(f"{m_} t0, lbl", 1) for m_ in asm.PSEUDO_RL]
+    rcases += [(f"{m_} t1, 4(t0)", 2) for m_ in asm.STORE] + [(f"{m_} t1, (t0)", 2) for m_ in asm.STORE]
+    # (RARS writes these three with the register first: `csrw t1, fcsr`)
+    rcases += [(f"{m_} t0, {c_}", 1) for m_ in ("csrw", "csrs", "csrc") for c_ in ("uscratch", "0x41")]
+    rcases += [("jr t0", 1), ("jalr t0", 1)]
+    rsrc = []
+    for stmt, nsrc in rcases:
+        setup = ["    li t0, 4", "    li t1, 5"][:nsrc]
+        rsrc.append("main:\n" + "\n".join(setup) + f"\n    {stmt}\nlbl:\n    li a7, 10\n    ecall\n")
+    rout = run_lines_isolated(RVH_DEBUG, [f"pipe lints 1 {hx('m.s')} {hx(t)}" for t in rsrc], chunk=200)
+    for (stmt, nsrc), src_, blk in zip(rcases, rsrc, rout):
+        for l in blk:
+            if l.startswith("LINT code=dead-assignment "):
+                ln = int(re.search(r" at=(\d+):", l).group(1))
+                if 1 <= ln <= nsrc and extra_first is None:
+                    extra_first = {"statement": stmt, "what": f"the read of {'t0' if ln == 1 else 't1'} by {stmt!r} is not seen: the "
+                                                              f"assignment right before it is reported as an unused value",
+                                   "replay_cmd": f"echo 'pipe lints 1 {hx('m.s')} {hx(src_)}' | {RVH_DEBUG}"}
     # --- folding through the real pipeline (math_op table + operate + rule)
     fcases = fold_programs(rng, 3 if tier == "quick" else 200)
     freqs = [f"pipe facts 1 {hx('m.s')} {hx(src)}" for *_, src in fcases]
